@@ -228,6 +228,10 @@ impl<'a, 'b> BlockState<'a, 'b> {
 
             mapping.push(( result.len(), offsets.line_start+first ));
             result += &" ".repeat(num_spaces as usize);
+            if num_spaces > 0 {
+                // spaces standing for a split tab have no bytes of their own in the source
+                mapping.push(( result.len(), offsets.line_start+first ));
+            }
             result += &self.src[offsets.line_start+first..last];
             if add_last_lf { result.push('\n'); }
             line += 1;
